@@ -186,6 +186,12 @@ def gen(rng, it, quick):
                 o = tuple(rng.choice(lu.all_perms(nd)))
                 g['L%d_%d' % (gi, li)] = list(o)
             groups.append(g)
+    if rng.random() < 0.4:
+        # the 2-D group need not be listed first (the constructor sorts the handlers itself)
+        perm = list(range(len(groups)))
+        rng.shuffle(perm)
+        groups = [groups[i] for i in perm]
+        nprocs = [nprocs[i] for i in perm]
     world = p0 * p1
     shape = lu.rand_shape(rng, nd, [p0, p1], hi=6)
     names = [n for g in groups for n in g]
@@ -210,7 +216,7 @@ def run(chk):
         if chk.replay:
             import json
             c = json.load(open(chk.replay))['case']
-            c['world'] = int(np.prod(c['nprocs'][0]))
+            c['world'] = max(int(np.prod(x)) for x in c['nprocs'])
             c['steps'] = [tuple(s) for s in c['steps']]
             check_one(chk, drv, c)
         else:
